@@ -8,6 +8,20 @@ HERE = os.path.dirname(os.path.dirname(os.path.abspath(__file__)))
 HOOK_COMMITS = ["7e56da8"]
 
 CLAIMED = {
+    "C20": dict(
+        engine="gpusim", category="exploration", design_ref="DESIGN.md section 4 (C20), 3.3, 3.4, 13",
+        technique="deterministic simulation of the GPU launch model: generated OKL kernels through all seven real translators, g++-compiled against dialect shims, run on an emulator built on the deterministic thread scheduler (seeded block order, block threads as simulated threads, barriers, scripted preemption), launch-model race detection on the trace, comparison with the generator's sequential reference",
+        text=("Generated OKL kernels (independent iterations by construction) are translated by the real serial, openmp, cuda, hip, opencl, "
+              "metal and dpcpp translators. Serial and OpenMP objects run directly (OpenMP on the simulated OpenMP runtime); GPU device code "
+              "and the emitted host launcher are compiled by g++ against ~100-line shim headers per dialect and run under an emulation of "
+              "the launch model (grid of blocks in seeded order, the threads of a block as simulated threads, barriers, atomics). Outputs must "
+              "equal the generator's own sequential rendering of the kernel; no conflicting access pair may be unordered under the launch "
+              "model's happens-before; guard zones must stay silent. Recorded findings: @atomic dropped by the OpenCL and Metal translators, "
+              "@atomic blocks not compilable in the DPC++ translation."),
+        note=("The GPU hardware, vendor compilers and runtimes are stubs (shims + emulator): the check decides what the *translated text* does "
+              "under the documented launch model, not what a vendor compiler would do with it. Blocks run sequentially; inter-block ordering is "
+              "decided on the trace. Features a backend's translator rejects are counted, not judged."),
+    ),
     "C21": dict(
         engine="simrt", category="exploration", design_ref="DESIGN.md section 4 (C21), 3.3, 3.4",
         technique="deterministic simulation of OpenMP schedules: generated OKL kernels, real translators and g++, simulated OpenMP runtime (seeded team size, chunk-to-thread assignment, interleaving with scripted preemption), lockset race detection on the recorded trace, bit-exact comparison with the Serial translation",
@@ -189,7 +203,9 @@ def main():
              "kind_free_text": "multi-process / file-system deterministic simulator: ptrace+seccomp tracer parks real OCCA processes at file-system system calls; seeded scheduler, kill/torn-write injection, simulated clock and entropy (LD_PRELOAD), stub compiler with memoised real g++ output"},
             {"name": "handlesim", "path": "engines/handlesim", "serves_properties": ["C01", "C02", "C03", "C04", "C05"],
              "kind_free_text": "single-caller history simulator: seeded operation histories over the public C++ API next to an executable reference model, ASan build, live-object counters"},
-            {"name": "simrt", "path": "engines/simrt", "serves_properties": ["C21", "C30"],
+            {"name": "gpusim", "path": "engines/gpusim", "serves_properties": ["C20"],
+             "kind_free_text": "GPU launch-model emulator on simrt: dialect shim headers (CUDA, HIP, OpenCL, Metal, SYCL), stand-in for occa::kernel used by the emitted launcher, seeded block order, block threads as simulated threads, barriers; oklgen sequential reference"},
+            {"name": "simrt", "path": "engines/simrt", "serves_properties": ["C20", "C21", "C30"],
              "kind_free_text": "deterministic thread scheduler behind the TSan compiler ABI: real pthreads, one runnable at a time, preemption at instrumented memory accesses and synchronisation, quarantine heap checker, simulated OpenMP runtime"},
         ],
         "checks": checks,
